@@ -174,8 +174,8 @@ func respReleaseSite(c *cx, id string, f *eng.Fn, call *ast.CallExpr) {
 			continue
 		}
 		for _, st := range l.Body.List {
-			is, ok := st.(*ast.IfStmt)
-			if !ok || is.Init != nil || !closesR(is.Body) {
+			cond, ibody, _, ok := asIf(st)
+			if !ok || !closesR(&ast.BlockStmt{List: ibody}) {
 				continue
 			}
 			var conj []ast.Expr
@@ -189,7 +189,7 @@ func respReleaseSite(c *cx, id string, f *eng.Fn, call *ast.CallExpr) {
 				}
 				conj = append(conj, e)
 			}
-			split(is.Cond)
+			split(cond)
 			// every conjunct must be `V != nil` on an outer variable or on r itself
 			var guard *ast.Ident
 			okAll := true
@@ -710,14 +710,14 @@ func handoffWithdrawn(c *cx, id string, rel, fname, queue string) {
 		w := wd{ds: ds}
 		okShape := true
 		for _, st := range l.Body.List {
-			if is, ok := st.(*ast.IfStmt); ok && !recvQueue(is) {
+			if cond, ibody, els, ok := asIf(st); ok && !recvQueue(st) {
 				// an early return: must be `if flag { return }`
-				idn, isID := ast.Unparen(is.Cond).(*ast.Ident)
-				ret := len(is.Body.List) == 1
+				idn, isID := ast.Unparen(cond).(*ast.Ident)
+				ret := len(ibody) == 1
 				if ret {
-					_, ret = is.Body.List[0].(*ast.ReturnStmt)
+					_, ret = ibody[0].(*ast.ReturnStmt)
 				}
-				if !isID || !ret || is.Else != nil || w.flag != nil {
+				if !isID || !ret || els != nil || w.flag != nil {
 					okShape = false
 					continue
 				}
